@@ -86,7 +86,8 @@ class Report:
         return cond
 
     def error(self, rule, reason):
-        self.errors.append((rule, reason))
+        if (rule, reason) not in self.errors:
+            self.errors.append((rule, reason))
 
     def need(self, rule, n, minimum=1, what='instances'):
         """vacuity guard: a rule that found no instance of its anchor is not a pass"""
